@@ -12,20 +12,23 @@ def splitOnComma (s : String) : List String := s.splitOn ","
 def multiAxis (ms : List Axis) : Axis :=
   { name := ",".intercalate (ms.map (·.name)), labels := [], kind := .O, members := ms.map Axis.toAxis0 }
 
-/-- `_get_axes_info(dims)` : positions for a list of names / ints (ints are not validated here) -/
+/-- `_get_axes_info(dims)` : positions for a list of names / ints, keys examined from left to right (the first bad key
+decides the error class).  A name goes through `self.dims.index(name)` (ValueError); an int is returned AS IS (negative
+positions stay negative) after `self.axes[idx].name` has been evaluated, a `list.__getitem__` which raises IndexError
+for a position outside [-ndim, ndim) -/
 def axesPositions {α} (a : DimArray α) (ks : List DimKey) : Except Err (List Int) :=
   ks.mapM fun k => match k with
     | .name s =>
       let p := a.dims.idxOf s
       if p < a.dims.length then .ok (p : Int) else .error .value
-    | .pos i => .ok i
+    | .pos i => if i < -(a.ndim : Int) || i ≥ (a.ndim : Int) then .error .index else .ok i
 
 /-- NumPy's validation of a permutation passed to `ndarray.transpose` -/
 def normPerm (n : Nat) (p : List Int) : Except Err (List Nat) := do
   if p.length != n then .error .value else
   let q ← p.mapM fun (i : Int) =>
     let j : Int := if i < 0 then i + (n : Int) else i
-    if j < 0 || j ≥ (n : Int) then (.error .value : Except Err Nat)   -- AxisError is a ValueError (and IndexError)
+    if j < 0 || j ≥ (n : Int) then (.error .value : Except Err Nat)   -- (unreachable from `transpose`: `_get_axes_info` has validated the positions)
     else .ok j.toNat
   if q.eraseDups.length != q.length then .error .value else pure q
 
@@ -58,12 +61,14 @@ def swapaxes {α} (a : DimArray α) (k1 k2 : DimKey) : Except Err (DimArray α) 
   let p ← normPerm a.ndim perm
   pure (transposeBy a p)
 
-/-- the permutation `np.rollaxis` applies -/
+/-- the permutation `np.rollaxis` applies.  Both refusals are NumPy's `AxisError`, a subclass of ValueError AND of
+IndexError: the harness (and any `except IndexError`) reads it as an IndexError.  The first one is unreachable from
+`rollaxis`, whose `_get_axis_info` has refused the position before (plain IndexError) -/
 def rollPerm (n : Nat) (axis start : Int) : Except Err (List Nat) :=
   let ax := if axis < 0 then axis + n else axis
-  if ax < 0 || ax ≥ (n : Int) then .error .value else
+  if ax < 0 || ax ≥ (n : Int) then .error .index else
   let st := if start < 0 then start + n else start
-  if st < 0 || st > (n : Int) then .error .value else
+  if st < 0 || st > (n : Int) then .error .index else
   let st := if st > ax then st - 1 else st
   let rest := (List.range n).filter (· != ax.toNat)
   .ok (rest.insertIdx st.toNat ax.toNat)
